@@ -10,9 +10,9 @@ lazy resolution `PoolEntry::as_*` / `PoolRead::get_*` including the `BootstrapMe
 
 Descriptors and signatures are *not* validated by the reader (`check_valid` is `Ok(())` for them), names are
 (a class name starting with `[` must be an array field descriptor).
-`get_loadable` recurses through bootstrap arguments without a bound: the model takes fuel `pool.length + 1`
-(more than any acyclic chain needs); running out of fuel means the Rust recursion does not terminate
-(`crash .recursion`).
+`get_loadable` recurses through bootstrap arguments with a depth counter (`get_loadable_at_depth`,
+`MAX_BOOTSTRAP_ARGUMENT_DEPTH = 16`): nesting level `d` is entered with fuel `17 - d`; at level 17 the reader bails
+(`err`), so a `Dynamic` constant reachable from its own bootstrap arguments is an error.
 -/
 
 namespace ClassRead
@@ -339,9 +339,9 @@ def bsmAt (bsms : Option (List Bsm)) (i : Nat) : Outcome Bsm :=
   | none => err
   | some l => ofOption l[i]?
 
-/-- `get_loadable` (and `as_dynamic`) with explicit recursion fuel -/
+/-- `get_loadable_at_depth` (and `as_dynamic`); the first argument is `17 - depth`: `depth > 16` is an error -/
 def getLoadableFuel (p : Pool) (bsms : Option (List Bsm)) : Nat → Nat → Outcome Loadable
-  | 0, _ => crash .recursion
+  | 0, _ => err
   | fuel + 1, i => do
     match ← p.get i with
     | .int v => ok (.int v)
@@ -359,8 +359,9 @@ def getLoadableFuel (p : Pool) (bsms : Option (List Bsm)) : Nat → Nat → Outc
       pure (.dyn name desc m.handle args)
     | _ => err
 
+/-- `get_loadable`: depth 0 -/
 def getLoadable (p : Pool) (bsms : Option (List Bsm)) (i : Nat) : Outcome Loadable :=
-  getLoadableFuel p bsms (p.length + 1) i
+  getLoadableFuel p bsms 17 i
 
 /-- `get_invoke_dynamic` -/
 def getInvokeDynamic (p : Pool) (bsms : Option (List Bsm)) (i : Nat) : Outcome InvokeDynamic := do
@@ -368,7 +369,8 @@ def getInvokeDynamic (p : Pool) (bsms : Option (List Bsm)) (i : Nat) : Outcome I
   | .invokeDynamic b nt => do
     let (name, desc) ← p.getMethodNameAndType nt
     let m ← bsmAt bsms b
-    let args ← mapArgs (p.getLoadable bsms) m.args
+    -- `get_loadable_at_depth(argument, bootstrap_methods, 1)`
+    let args ← mapArgs (getLoadableFuel p bsms 16) m.args
     pure ⟨name, desc, m.handle, args⟩
   | _ => err
 
